@@ -25,6 +25,12 @@ CHECKS = {
  "C05": ("model_checking", BFS + "; address book of every live element checked after every transition",
          "in every reachable state of the C01-C03 spaces every live element is re-obtained by iteration and find and must be at the address recorded at its insertion",
          "bounded universes as C01-C03", "DESIGN.md §4 C05"),
+ "C06": ("model_checking", BFS + "; depth-bounded from six initial representation/sharing states",
+         "every history up to depth 4-6 over three String variables, started from the empty state and from literal / attached / shared / slack states, is executed and every variable compared with a std::string-like reference after each step",
+         "contents over a small byte alphabet, length <= 3-6; infinite space, depth bounded", "DESIGN.md §4 C06"),
+ "C08": ("model_checking", BFS + "; fix-point over (owned, head-room, size, capacity, attached) of two Buffers",
+         "every reachable combination of ownership, head-room, size and capacity (sizes up to 6/9) with every operation incl. attach mixed with owning operations; terminator and bounds decided on every transition (ASan)",
+         "byte values are data only (canonical-state argument); self arguments excluded", "DESIGN.md §4 C08"),
  "C17": ("exploration", "exhaustive enumeration of message length x chunking shapes on the real code vs hashlib/hmac",
          "every length 0..300 (600 thorough) x 4 content generators, every 2-way and (bounded) 3-way chunking, hasher reuse, "
          "HMAC for every key length 0..200: the padding/carry/key-normalisation logic depends on lengths only, so the shape space is exhausted",
